@@ -27,7 +27,10 @@ def boundary_pieces(rng, n):
     buffer, the 256-frame live ring, single samples"""
     special = [0, 1, 2, SHIFT - 1, SHIFT, SHIFT + 1, SIZE - SHIFT, SIZE - 1, SIZE, SIZE + 1, SIZE + SHIFT - 1, SIZE + SHIFT,
                samples_for(127), samples_for(128) - 1, samples_for(128), samples_for(128) + 1, samples_for(129),
-               samples_for(255), samples_for(256), samples_for(257), samples_for(7), samples_for(4), 3 * SHIFT]
+               samples_for(255), samples_for(256), samples_for(257), samples_for(7), samples_for(4), 3 * SHIFT,
+               # the same boundaries counted in FEATURE frames (a feature frame needs W = 3 cepstra of lookahead)
+               samples_for(128 + 3) - 1, samples_for(128 + 3), samples_for(128 + 3) + SHIFT - 1, samples_for(128 + 3) + SHIFT,
+               samples_for(256 + 3), samples_for(256 + 3) + SHIFT - 1, samples_for(64 + 3), samples_for(253), samples_for(254)]
     out, off = [], 0
     while off < n:
         r = rng.random()
@@ -48,7 +51,12 @@ def boundary_pieces(rng, n):
 
 def variant(rng, aud, n, grammar_lines, cfg, idx):
     s = ["mark var%d" % idx, "init " + decmatrix.hx(json.dumps(cfg))] + grammar_lines + ["cmn " + decmatrix.hx(CMN), "start"]
-    kind = rng.choice(["tiny", "boundary", "boundary", "buffered", "queries", "rand", "first-small"])
+    kind = rng.choice(["tiny", "boundary", "boundary", "buffered", "queries", "rand", "first-small", "buffered-queries",
+                       "after-batch", "cut128"])
+    if kind == "after-batch":
+        # the same decoder first decodes a long utterance as ONE full-utterance block (which enlarges its cepstrum
+        # buffer for good); then the streaming variant: a short first piece and one very long piece
+        s += ["feed gf 0 -1 i16 0 1", "end", "cmn " + decmatrix.hx(CMN), "start"]
     if kind == "tiny":
         pieces = []
         off = 0
@@ -58,6 +66,20 @@ def variant(rng, aud, n, grammar_lines, cfg, idx):
             off += k
         if off < n:
             pieces.append(n - off)
+    elif kind == "after-batch":
+        first = rng.choice([1000, 2048, 160, 500, 4000])
+        pieces = [min(first, n), max(0, n - first)]
+    elif kind == "cut128":
+        # one cut placed exactly where 128 (or 64, 256) feature frames exist
+        c = rng.choice([samples_for(128 + 3) + rng.randint(0, SHIFT - 1), samples_for(64 + 3) + rng.randint(0, SHIFT - 1),
+                        samples_for(256 + 3) + rng.randint(0, SHIFT - 1)])
+        pre = rng.choice([[], [5000], [5000, 12345]])
+        cuts = sorted(set([x for x in pre + [c] if x < n]))
+        pieces, last = [], 0
+        for x in cuts:
+            pieces.append(x - last)
+            last = x
+        pieces.append(n - last)
     elif kind == "first-small":
         first = rng.choice([0, 1, 100, SHIFT, SIZE - 1, SIZE, SIZE + SHIFT - 1])
         pieces = [min(first, n)] + boundary_pieces(rng, max(0, n - first))
@@ -76,13 +98,13 @@ def variant(rng, aud, n, grammar_lines, cfg, idx):
     off = 0
     for i, k in enumerate(pieces):
         ns = 0
-        if kind == "buffered":
+        if kind in ("buffered", "buffered-queries"):
             ns = 1 if rng.random() < 0.6 else 0
         elif rng.random() < 0.1:
             ns = 1
         s.append("feed %s %d %d %s %d 0" % (aud, off, k, rng.choice(["i16", "i16", "f32"]), ns))
         off += k
-        if kind == "queries" or rng.random() < 0.05:
+        if kind in ("queries", "buffered-queries") or rng.random() < 0.05:
             q = rng.random()
             if q < 0.3:
                 s.append("result q%d" % i)
